@@ -4,6 +4,7 @@ import (
 	"encoding/json"
 	"fmt"
 	"go/ast"
+	"go/token"
 	"go/types"
 	"os"
 	"path/filepath"
@@ -291,3 +292,118 @@ func (c *Ctx) ruleEveryInteraction() {
 }
 
 var _ = prog.ModulePath
+
+// ruleRequiredArrays: a required (no omitempty) array or object key of a hand-written emitter must not be emitted as
+// null. In a MarshalJSON method of package catalog, a slice- or map-typed field of the local value that is handed to
+// json.Marshal and that is only ever built up by append onto itself needs an initialisation by make / a literal that
+// dominates the Marshal call (append onto a nil slice that receives no element stays nil and is encoded as null).
+func (c *Ctx) ruleRequiredArrays() {
+	r := c.R
+	r.Rule("C04-REQUIRED-ARRAY", "in the MarshalJSON methods of package catalog every required (no omitempty) slice/map field of the emitted local struct that is accumulated by append is initialised by make or a literal on every path to the json.Marshal call: an empty collection is emitted as [] / {}, never as null", 1)
+	pk := c.P.Pkg("catalog")
+	if pk == nil {
+		r.Undecided("C04-REQUIRED-ARRAY", "anchor", "package catalog not loaded", "")
+		return
+	}
+	n := 0
+	for _, f := range c.libFns() {
+		if f.Pkg != pk || f.Obj.Name() != "MarshalJSON" {
+			continue
+		}
+		// the marshal calls and their argument variable
+		var marshals []*ast.CallExpr
+		ast.Inspect(f.Decl.Body, func(nd ast.Node) bool {
+			if call, ok := nd.(*ast.CallExpr); ok && len(call.Args) >= 1 {
+				if cal := callee(pk, call); cal != nil && cal.Pkg() != nil && cal.Pkg().Path() == "encoding/json" && strings.HasPrefix(cal.Name(), "Marshal") {
+					marshals = append(marshals, call)
+				}
+			}
+			return true
+		})
+		cf := buildCFG(f.Decl.Body)
+		for _, mc := range marshals {
+			arg := ast.Unparen(mc.Args[0])
+			if u, ok := arg.(*ast.UnaryExpr); ok && u.Op == token.AND {
+				arg = ast.Unparen(u.X)
+			}
+			id, ok := arg.(*ast.Ident)
+			if !ok {
+				continue
+			}
+			st, ok := pk.TypesInfo.TypeOf(id).Underlying().(*types.Struct)
+			if !ok {
+				continue
+			}
+			base := accessPath(pk, id)
+			for i := 0; i < st.NumFields(); i++ {
+				fld := st.Field(i)
+				switch fld.Type().Underlying().(type) {
+				case *types.Slice, *types.Map:
+				default:
+					continue
+				}
+				tag := reflect.StructTag(st.Tag(i)).Get("json")
+				if tag == "-" || strings.Contains(tag, "omitempty") {
+					continue
+				}
+				path := base + "." + fld.Name()
+				var inits, appends, others []ast.Node
+				ast.Inspect(f.Decl.Body, func(nd ast.Node) bool {
+					switch x := nd.(type) {
+					case *ast.AssignStmt:
+						for j, l := range x.Lhs {
+							if accessPath(pk, l) != path || j >= len(x.Rhs) {
+								continue
+							}
+							switch rhs := ast.Unparen(x.Rhs[j]).(type) {
+							case *ast.CompositeLit:
+								inits = append(inits, x)
+							case *ast.CallExpr:
+								if fid, ok := rhs.Fun.(*ast.Ident); ok && fid.Name == "make" {
+									inits = append(inits, x)
+								} else if ok && fid.Name == "append" && len(rhs.Args) > 0 && accessPath(pk, rhs.Args[0]) == path {
+									appends = append(appends, x)
+								} else {
+									others = append(others, x)
+								}
+							default:
+								others = append(others, x)
+							}
+						}
+					case *ast.CompositeLit:
+						// data := S{F: make(...)}
+						if t := pk.TypesInfo.TypeOf(x); t != nil && types.Identical(t.Underlying(), st) {
+							for _, el := range x.Elts {
+								if kv, ok := el.(*ast.KeyValueExpr); ok {
+									if kid, ok := kv.Key.(*ast.Ident); ok && kid.Name == fld.Name() {
+										others = append(others, x)
+									}
+								}
+							}
+						}
+					}
+					return true
+				})
+				if len(others) > 0 || (len(appends) == 0 && len(inits) == 0) {
+					continue // filled from somewhere else: its nil-ness is that of the source (not decided here)
+				}
+				n++
+				key := fmt.Sprintf("%s | %s", f.Name(), fld.Name())
+				ok := false
+				for _, in := range inits {
+					if cf.dominatedBy(mc, in) {
+						ok = true
+					}
+				}
+				if ok {
+					r.Ok("C04-REQUIRED-ARRAY", key, "initialised by make / a literal on every path to json.Marshal", c.pos(mc.Pos()))
+				} else {
+					r.Bad("C04-REQUIRED-ARRAY", key, "the required key is built by append only: when nothing is appended it is emitted as null instead of an empty array", c.pos(mc.Pos()))
+				}
+			}
+		}
+	}
+	if n == 0 {
+		r.Undecided("C04-REQUIRED-ARRAY", "sites", "no accumulated required array found (Tag.interactionGroups used to match)", "")
+	}
+}
